@@ -23,6 +23,7 @@ import (
 	"gorgonia.org/tensor"
 
 	"verifsim/rng"
+	"verifsim/evid"
 	"verifsim/val"
 )
 
@@ -655,6 +656,7 @@ type worldRun struct {
 
 // execute runs the case. pol == nil: serial execution following c.Order (or tasks in order).
 func execute(c *Case, pol policy, attrib bool, checkState bool) *worldRun {
+	defer evid.ApplyEnv(c.World.Env)()
 	x := &executor{c: c, attrib: attrib, checkState: checkState}
 	sharedMP := map[uint64]*onnx.ModelProto{}
 	for i := range c.World.Models {
